@@ -271,7 +271,8 @@ pub fn judge_c06(h: &History) -> Outcome {
     let verdict = if h.sched.hang {
         Ok(())
     } else {
-        oracle::c06_skip(h).and_then(|_| if h.case.kind.consuming() && !h.sched.step_bound_hit { oracle::c08_exactly_once_ownership(h) } else { Ok(()) })
+        let has_skip = h.ops.iter().any(|o| o.tag == Tag::Skip);
+        oracle::c06_skip(h).and_then(|_| if has_skip && h.case.kind.consuming() && !h.sched.step_bound_hit { oracle::c08_exactly_once_ownership(h) } else { Ok(()) })
     };
     let skips: Vec<&OpRec> = h.ops.iter().filter(|o| o.tag == Tag::Skip).collect();
     let pulls = timed_pulls(h);
